@@ -235,6 +235,31 @@ func (c *SimChain) Reorg(depth int, delay bool) {
 	}
 }
 
+// ReorgHold replaces the top `depth` blocks by depth+1 new ones that do not
+// contain the transactions of the replaced blocks: those wait in the mempool
+// and confirm in whatever block comes next.
+func (c *SimChain) ReorgHold(depth int) {
+	if depth <= 0 || depth >= len(c.blocks) {
+		return
+	}
+	c.fork++
+	var back []string
+	for i := 0; i < depth; i++ {
+		b := c.blocks[len(c.blocks)-1]
+		c.blocks = c.blocks[:len(c.blocks)-1]
+		for _, t := range b.Txs {
+			delete(c.confAt, t)
+		}
+		back = append(b.Txs, back...)
+	}
+	c.w.Probe("chain:reorg")
+	c.w.Probe("chain:reorg-hold")
+	keep := append(back, c.mempool...)
+	c.mempool = nil
+	c.Mine(depth + 1)
+	c.mempool = append(keep, c.mempool...)
+}
+
 // StartMiner mines one block every period (virtual) until the run ends.
 func (c *SimChain) StartMiner(period time.Duration) {
 	if period <= 0 {
